@@ -33,8 +33,11 @@ TGet == /\ IsEv("get") /\ (Rec[l].idx < size) = TRUE
            IN (IF g[1] = "some" THEN Rec[l].some /\ Val(Rec[l]) = g[2] ELSE ~Rec[l].some) = TRUE
         /\ UNCHANGED <<size, def, slot>>
 
+(* a payload type whose equality is not reflexive (NaN): stored and returned like any other, no panic *)
+TNan == /\ IsEv("nan") /\ (Rec[l].panicked = FALSE /\ Rec[l].ok = TRUE) = TRUE /\ UNCHANGED <<size, def, slot>>
+
 TCInit == l = 1 /\ size = 1 /\ def = [k |-> 0, a |-> 0] /\ slot = << >>
-TCNext == TNew \/ TAdd \/ TRep \/ TGet
+TCNext == TNew \/ TAdd \/ TRep \/ TGet \/ TNan
 TCSpec == TCInit /\ [][TCNext]_tcvars
 Accepted ==
   LET d == TLCGet("stats").diameter - 1
